@@ -2,7 +2,8 @@
 """Regenerates /verif/MANIFEST.json from /verif/checks.json (+ hooks.json) and properties.jsonl."""
 import json, os
 V = "/verif"
-checks = json.load(open(f"{V}/checks.json"))
+import glob
+checks = {os.path.basename(f)[:-5]: json.load(open(f)) for f in sorted(glob.glob(f"{V}/checks/C*.json"))}
 props = [json.loads(l) for l in open(f"{V}/properties.jsonl") if l.strip()]
 hooks = json.load(open(f"{V}/hooks.json")) if os.path.exists(f"{V}/hooks.json") else {"source_commits": []}
 na_reasons = json.load(open(f"{V}/not_applicable.json")) if os.path.exists(f"{V}/not_applicable.json") else {}
